@@ -1,7 +1,7 @@
 (* C14 - AST search and read-only views return exactly the addressed value.
    Only statements, closed by `exact`, with Print Assumptions beneath each. *)
 From Coq Require Import List Arith Bool NArith.
-From SV.Ast Require Import Tree Search SearchProofs Node Refute.
+From SV.Ast Require Import Tree Search SearchProofs Node Refute PathRefine.
 Import ListNotations.
 
 (* match_key compares the raw member name with the wanted key escape by escape (native/scanning.h); for every member name
@@ -68,3 +68,14 @@ Example C14_preorder_nonvacuous :
   flatten (TObj [([92; 117; 48; 48; 54; 49]%N, TArr [TNull; TObj []]); ([98]%N, TStr [92; 110]%N)]) =
   Some [PObjBegin; PKey [97]%N; PArrBegin; PNull; PObjBegin; PObjEnd; PArrEnd; PKey [98]%N; PStr [10]%N; PObjEnd].
 Proof. vm_compute. reflexivity. Qed.
+
+(* Node.Get / Node.Index / Node.GetByPath (the lazy AST side of the search): every history of lookups at arbitrary paths on a raw,
+   concurrent-read, lazily parsed or constructed document returns exactly what the plain tree addresses (first occurrence of a
+   duplicated key, positional index on arrays and objects), or its error class; earlier lookups (what they happened to load) never
+   change a later answer.  Any hash function (collisions allowed), non-empty keys. *)
+Theorem C14_node_getbypath_spec :
+  forall (hash : bytes -> N) (v : value) (ops : list step),
+    Forall look_step ops ->
+    fst (run hash ops (mk_value hash v)) = fst (spec_run ops (snd v)).
+Proof. exact look_run_from_doc. Qed.
+Print Assumptions C14_node_getbypath_spec.
